@@ -159,6 +159,9 @@ func (c *Ctx) Explore(name string, params map[string]any, bound int, run explore
 		}
 		shard, of = 0, 1
 	}
+	if os.Getenv("VERIF_DEBUG") != "" {
+		fmt.Fprintf(os.Stderr, "unit %s\n", name)
+	}
 	// iterated deviation bound: 0, 1, ..., bound; the highest bound completed is reported
 	var samples []any
 	deadline := c.unitDeadline()
